@@ -366,7 +366,7 @@ def run_check(mod, pid, tier, seed, args, workdir, t0):
                 n_viol += 1
                 if first_viol is None:
                     first_viol = (c, impl, dec)
-            elif for_model(c, impl) != dec.get("model"):
+            elif not dec.get("model_unsupported") and for_model(c, impl) != dec.get("model"):
                 n_corr += 1
                 if first_corr is None:
                     first_corr = (c, impl, dec)
